@@ -81,7 +81,11 @@ def handle : List String → String
       | "ham" => answer (hamiltonianExp p.k p.c p.t) 1.0 (p.us.map (hamiltonianEvaluate p.k p.c p.t))
       | "npt" => answer (isobaricExp p.k p.c p.t) 1.0 (p.us.map (isobaricEvaluate p.k p.c p.t))
       | "nst" => answer (isotensionExp p.k p.c p.t) 1.0 (p.us.map (isotensionEvaluate p.k p.c p.t))
-      | "gc" => answer (gcExpo p.k p.c p.t) (gcPref p.k p.c) (p.us.map (gcEvaluate p.k p.c p.t))
+      | "gc" =>
+        -- prefactor column: exp(log_prefactor) (0 for -inf); log A = exponential + log_prefactor
+        let e := gcExpo p.k p.c p.t
+        let lp : Float := match gcLogPref p.k p.c with | some x => x | none => Float.log 0.0
+        s!"ok {Proto.bitsOfFloat e} {Proto.bitsOfFloat (Float.exp lp)} {Proto.bitsOfFloat (e + lp)} {bits (p.us.map (gcEvaluate p.k p.c p.t))}"
       | _ => "bad-op"
   | "crit-raw" :: kind :: rest =>
     match parse rest with
